@@ -33,6 +33,16 @@ func variants(d doc) []doc {
 		v.Eps = append(v.Eps[:i], v.Eps[i+1:]...)
 		out = append(out, v)
 	}
+	for i := range d.PathLevel {
+		for k := range d.PathLevel[i].Params {
+			if d.PathLevel[i].Params[k].In == "path" {
+				continue
+			}
+			v := cloneDoc(d)
+			v.PathLevel[i].Params = append(v.PathLevel[i].Params[:k], v.PathLevel[i].Params[k+1:]...)
+			out = append(out, v)
+		}
+	}
 	for i := range d.Eps {
 		e := d.Eps[i]
 		for k := range e.Params {
